@@ -14,6 +14,7 @@ Driver modes of the C15 fault stream (tools/props/parts/C15_faults.py): the C15 
 -/
 import EngineModel.Driver.Cmds.C15
 import EngineModel.Api.FaultsV2
+import EngineModel.Api.FaultsV1
 
 open EngineModel EngineModel.Text
 
@@ -116,6 +117,79 @@ def step (st : St) (cmd : String) (args : List String) : St × String :=
 def mode : Drv.Mode := Drv.mkMode "c15fv2" ({} : St) step
 end CV2
 
-def modes : List Drv.Mode := [CV2.mode]
+namespace CV1
+open EngineModel.Api.CratesV1 EngineModel.Api.FaultsV1 Drv.CratesV1
+
+structure St where
+  base : Drv.CratesV1.St := {}
+  armed : Option Armed := none
+  fired : Bool := false
+
+/-- the mutating commands of mode `c15cv1`: operation, crate variable to bind, track variable to bind -/
+def parseOp (st : Drv.CratesV1.St) (cmd : String) (args : List String) : Option (Op × Option String × Option String) :=
+  let cr (v : String) : Option Id := get st.cvars v
+  let tr (v : String) : Option Id := get st.tvars v
+  match cmd, args with
+  | "mkroot", [v, n] => (parseHexBytes n).map fun n => (.createRoot n, some v, none)
+  | "mksub", [v, p, n] =>
+    match parseHexBytes n, cr p with
+    | some n, some p => some (.createSub p n, some v, none)
+    | _, _ => none
+  | "rename", [v, n] =>
+    match parseHexBytes n, cr v with
+    | some n, some c => some (.rename c n, none, none)
+    | _, _ => none
+  | "setparent", [v, p] =>
+    match cr v, (if p == "-" then some none else (cr p).map some) with
+    | some c, some p => some (.setParent c p, none, none)
+    | _, _ => none
+  | "rmcrate", [v] => (cr v).map fun c => (.removeCrate c, none, none)
+  | "v1.mktrack", [v, _] => some (.createTrack, none, some v)
+  | "rmtrack", [v] => (tr v).map fun t => (.removeTrack t, none, none)
+  | "addtrack", [c, t] =>
+    match cr c, tr t with
+    | some c, some t => some (.addTrack c t, none, none)
+    | _, _ => none
+  | "addtrackid", [c, t] =>
+    match cr c, t.toInt? with
+    | some c, some t => some (.addTrack c t, none, none)
+    | _, _ => none
+  | "rmtrackfrom", [c, t] =>
+    match cr c, tr t with
+    | some c, some t => some (.removeTrackFrom c t, none, none)
+    | _, _ => none
+  | "cleartracks", [c] => (cr c).map fun c => (.clearTracks c, none, none)
+  | _, _ => none
+
+def step (st : St) (cmd : String) (args : List String) : St × String :=
+  match cmd, args with
+  | "fault", k :: n :: _ =>
+    match k.toNat?, n.toNat? with
+    | some k, some n => ({ st with armed := some ⟨k, n⟩, fired := false }, "ok")
+    | _, _ => (st, "bad-op args")
+  | "fault.status", [] => ({ st with armed := none }, s!"ok fired={if st.fired then 1 else 0}")
+  | _, _ =>
+    match st.armed, st.base.schema, parseOp st.base cmd args with
+    | some a, some s, some (op, bc, bt) =>
+      let d := st.base.db
+      let m := positions s d op
+      let k' := mapPos a.k a.n m
+      let (d', r) := callF s d op (some ⟨k', false⟩)
+      let b := { st.base with db := d' }
+      let b := match r, bc with
+        | .ok (.id i), some v => { b with cvars := put b.cvars v i }
+        | _, _ => b
+      let b := match r, bt with
+        | .ok (.id i), some v => { b with tvars := put b.tvars v i }
+        | _, _ => b
+      ({ base := b, armed := if k' < m then none else st.armed, fired := k' < m }, outText r)
+    | _, _, _ =>
+      let (b, txt) := Drv.C15.CV1.step st.base cmd args
+      ({ st with base := b }, txt)
+
+def mode : Drv.Mode := Drv.mkMode "c15fv1" ({} : St) step
+end CV1
+
+def modes : List Drv.Mode := [CV2.mode, CV1.mode]
 
 end Drv.C15Faults
